@@ -60,8 +60,9 @@ class CallGraph:
             traits += ['std::cmp::Ord', 'std::cmp::PartialOrd']
         if tr == 'std::cmp::PartialEq' or 'PartialEq' in name or 'contains' in name:
             traits += ['std::cmp::PartialEq']
-        if tr == 'std::clone::Clone' or 'clone' in name or 'to_vec' in name or 'Vec::<T>::from' in name \
-                or 'collect' in name or 'from_iter' in name:
+        if (tr == 'std::clone::Clone' or 'clone' in name or 'to_vec' in name or 'Vec::<T>::from' in name
+                or 'collect' in name or 'from_iter' in name) and not re.match(r'^<std::rc::(Rc|Weak)<', name):
+            # cloning an Rc / Weak never clones the pointee
             traits += ['std::clone::Clone']
         if tr == 'std::fmt::Debug' or 'fmt' in name:
             traits += ['std::fmt::Debug']
